@@ -40,7 +40,7 @@ func classes(msg string) string {
 	if has("plugin type expected") || has("has non-string value") || has("too many type keys") {
 		set["plugintype"] = true
 	}
-	if has("has been registered for name") || has("no plugins for type") {
+	if has("has been registered for name") || has("no plugins for type") || has("should not be empty") {
 		set["pluginname"] = true
 	}
 	if has("Error:Field validation for") {
@@ -53,6 +53,11 @@ func classes(msg string) string {
 		set["castkind"] = true
 	}
 	if has("time: invalid duration") || has("time: unknown unit") || has("time: missing unit") {
+		set["parse"] = true
+	}
+	// the text hooks of core/config (url, ip, data size, encoding.TextUnmarshaler): the text is no value of the type
+	if has("string is not valid URL") || has("string is not valid IP") || has("invalid IP address") || has("UnmarshalText") || has("unrecognized level") ||
+		has("invalid syntax") && has("ByteSize") {
 		set["parse"] = true
 	}
 	if len(set) == 0 {
